@@ -73,6 +73,8 @@ pub struct Rendered {
     pub text: String,
     /// 1-based line on which each flat token starts
     pub lines: Vec<u32>,
+    /// byte range (start, end) of each flat token in `text`
+    pub offsets: Vec<(usize, usize)>,
     /// number of gap comments inserted (class "other")
     pub gap_comments: usize,
     /// number of file level comments inserted
@@ -166,6 +168,7 @@ pub fn render(flat: &Flat, cfg: &LayoutCfg, rng: &mut Rng) -> Rendered {
         eol: cfg.eol,
     };
     let mut lines = Vec::with_capacity(flat.toks.len());
+    let mut offsets = Vec::with_capacity(flat.toks.len());
     let mut gap_comments = 0;
     let mut file_comments = 0;
     let n = flat.toks.len();
@@ -310,6 +313,7 @@ pub fn render(flat: &Flat, cfg: &LayoutCfg, rng: &mut Rng) -> Rendered {
         }
         // ---- the token itself
         lines.push(out.line);
+        let tok_start = out.text.len();
         if cfg.mode == Mode::Canonical {
             out.push_tok_text(&canonical_spelling(&ft.tok));
         } else if kind == TK::A2ml && cfg.eol != Eol::Lf {
@@ -318,6 +322,7 @@ pub fn render(flat: &Flat, cfg: &LayoutCfg, rng: &mut Rng) -> Rendered {
         } else {
             out.push_tok_text(&ft.tok.text);
         }
+        offsets.push((tok_start, out.text.len()));
         prev_was_line_comment = kind == TK::Comment && ft.tok.text.starts_with("//");
         prev_kind = Some(kind);
         let _ = n;
@@ -329,6 +334,7 @@ pub fn render(flat: &Flat, cfg: &LayoutCfg, rng: &mut Rng) -> Rendered {
     Rendered {
         text: out.text,
         lines,
+        offsets,
         gap_comments,
         file_comments,
     }
